@@ -41,7 +41,7 @@ def _src(cfg, facts, gcc):
     return "\n".join(lines) + "\n", linemap
 
 
-def _run_clang(work, tag, cfg, facts):
+def _run_clang(work, tag, cfg, facts, depth=0):
     active = list(range(len(facts)))
     for attempt in range(8):
         sub = [facts[i] for i in active]
@@ -85,7 +85,18 @@ def _run_clang(work, tag, cfg, facts):
                     bad.setdefault(ent, first)
                     hit = True
             if not hit:
-                raise tc.AnalysisBroken("fact TU %s: unattributable error: %s" % (name, blk[:1500]))
+                # no line of the TU in the diagnostic (elided instantiation notes): bisect the batch
+                if len(active) == 1:
+                    fa = facts[active[0]]
+                    fa.status, fa.detail = ("rejected" if fa.may_reject else "broken"), "does not compile: " + first[:400]
+                    return
+                if depth > 12:
+                    raise tc.AnalysisBroken("fact TU %s: unattributable error: %s" % (name, blk[:1500]))
+                half = len(active) // 2
+                for part, sfx in ((active[:half], "a"), (active[half:], "b")):
+                    sub2 = [facts[i] for i in part]
+                    _run_clang(work, tag + sfx, cfg, sub2, depth + 1)
+                return
         if not bad:
             raise tc.AnalysisBroken("fact TU %s failed without diagnostics: %s" % (name, se[:1500]))
         drop = set()
